@@ -462,23 +462,23 @@ pub fn phases(cfg: &Cfg) -> Vec<Box<dyn Phase>> {
     vec![
         Box::new(Strings {
             singles,
-            random: cfg.n(60_000, 3_000_000),
+            random: cfg.n(60_000, 12_000_000),
         }),
         Box::new(Escapes {
             chars: escape_chars,
-            random: cfg.n(4_000, 200_000),
+            random: cfg.n(4_000, 800_000),
         }),
         Box::new(Ints {
             fixed: ints,
-            random: cfg.n(40_000, 2_000_000),
+            random: cfg.n(40_000, 8_000_000),
         }),
         Box::new(Floats {
             fixed: floats,
-            random: cfg.n(40_000, 2_000_000),
+            random: cfg.n(40_000, 8_000_000),
         }),
         Box::new(Words {
             fixed: words,
-            random: cfg.n(60_000, 2_000_000),
+            random: cfg.n(60_000, 8_000_000),
         }),
     ]
 }
